@@ -2,10 +2,11 @@
 from .pipecommon import CAT_K, kscripts
 
 # script A (OpStream_MC.SelA): t1 replicates c1 and the user / role operations, t2 replicates c2
+# (op#4 is a flush: its collection travels in a list, not in the message's collection-name field)
 OPS_A = [{"id": "op#1", "kind": "createindex", "db": "default", "coll": "c1", "ts": 11},
          {"id": "op#2", "kind": "loadcollection", "db": "default", "coll": "c2", "ts": 21},
          {"id": "op#3", "kind": "createuser", "db": "", "coll": "u1", "ts": 31},
-         {"id": "op#4", "kind": "loadcollection", "db": "default", "coll": "c1", "ts": 41}]
+         {"id": "op#4", "kind": "flush", "db": "default", "coll": "c1", "ts": 41}]
 TASKS_A = [{"id": "t1", "coll": "c1", "userrole": True}, {"id": "t2", "coll": "c2"}]
 TASKS_AREQ = [{"id": "t1", "coll": "c1", "userrole": True, "reqpos": True}, {"id": "t2", "coll": "c2"}]
 # script B (OpStream_MC.SelB): one task over all databases with one excluded collection
